@@ -42,13 +42,13 @@ func main() {
 }
 
 type EntryResult struct {
-	Cfg         EntryCfg
-	Eng         *Engine
-	Wall        time.Duration
-	Crash       string
-	Queries     [4]int // q, sat, unsat, unknown
-	SolverTime  time.Duration
-	SolverErrs  int
+	Cfg        EntryCfg
+	Eng        *Engine
+	Wall       time.Duration
+	Crash      string
+	Queries    [4]int // q, sat, unsat, unknown
+	SolverTime time.Duration
+	SolverErrs int
 }
 
 func loadProgram(d *Descriptor, scratch string) (*ssa.Program, *ssa.Package, error) {
@@ -112,6 +112,7 @@ func newEngine(prog *ssa.Program, cfg EntryCfg, kf []KnownFinding, stubs map[str
 		e.maxSwitch = 6
 	}
 	e.schedAll = cfg.Sched == "all"
+	e.preemptLocks = cfg.Preempt == "locks"
 	e.noMerge = cfg.NoMerge
 	et := types.NewNamed(types.NewTypeName(0, nil, "modelError", nil), types.NewPointer(types.NewStruct(nil, nil)), nil)
 	et.AddMethod(types.NewFunc(0, nil, "Error", types.NewSignatureType(types.NewVar(0, nil, "", et), nil, nil, nil, types.NewTuple(types.NewVar(0, nil, "", types.Typ[types.String])), false)))
